@@ -19,3 +19,5 @@ func heapSane() bool                               { return true }
 func withPoolLock(f func()) { f() }
 
 func fireTime(f timeout.Future) (time.Time, bool) { return time.Time{}, false }
+
+func abandonPool(maxWorkers int, idle time.Duration) {}
